@@ -216,6 +216,11 @@ def montecarlo(ctx):
     ctx.ob("FRM", "LinearFourRates._sim_bounds.get_Rj", "statistic (1 - eta) * sum(eta^(N-i) * B_i)", bn and T.same(tg.retval, want), q.short(tg.retval, 120))
     ap = [e for e in tr.calls() if e.callee[0] == "mcall" and e.callee[1] == "apply"]
     okw = len(ap) == 1 and dict(ap[0].kwargs).get("args") is not None and dict(ap[0].kwargs)["args"] == atom(("tuple", (eta, P("est_rate"), N)))
+    if len(ap) == 1 and dict(ap[0].kwargs).get("args") is None and [a.arg for a in fi.node.args.args] == ["vec"]:
+        # get_Rj(vec) as a closure over the enclosing function's eta / est_rate / denom
+        rec = Evaluator._closure_envs.get(fi.qualname)
+        locs = rec[1] if rec else {}
+        okw = rec is not None and all(locs.get(n, P(n)) == w for n, w in (("eta", eta), ("est_rate", P("est_rate")), ("denom", N)))
     ctx.ob("FWD", "LinearFourRates._sim_bounds", "the simulation receives (eta, est_rate, denom)", okw, "")
     ctx.ob("FWD", "LinearFourRates._sim_bounds", "one statistic per simulated column (axis=0)", len(ap) == 1 and dict(ap[0].kwargs).get("axis", const(0)) == const(0), "")
     # percentile levels
@@ -410,6 +415,8 @@ def steps(ctx):
         from . import c16
         ext, _v = c16.extracted_labels(ctx, tr, U)
         path = [p[1] for p in mu[0].path if p[0] == "item"]
+        if len(path) == 1 and (path[0].single_atom() or ("",))[0] == "tuple" and len(path[0].single_atom()[1]) == 2:
+            path = list(path[0].single_atom()[1])  # confusion[a, b]
         ok = len(path) == 2 and {q.short(p, 200) for p in path} == {q.short(ext["y_true"], 200), q.short(ext["y_pred"], 200)}
         ctx.ob("FWD-label", U, "the cell incremented is indexed by the validated label and prediction themselves (element 0 of each)", ok,
                "indices %s" % ", ".join(q.short(p, 60) for p in path), mu[0])
